@@ -50,7 +50,7 @@ var shapeRefs = []string{"main", "gitlink-first", "gitlink-nested", "gitlink-las
 
 // gitlink paths per ref.  Order of the entries of `git ls-tree -r` (byte order of the full paths):
 //   .gitattributes .gitmodules  [a-lib]  a.bin  a/in.bin  [a/lib]  a0.bin  d1/d2/d3/d4/deep.bin  [lib]  ln.bin(symlink)  plain.txt
-//   run.bin(100755)  "sp ace/my file.bin"  z.bin  [zlib]
+//   run.bin(100755)  "sp ace/my\tfile.bin"  z.bin  [zlib]
 var shapeGitlinks = map[string][]string{"main": {"lib"}, "gitlink-first": {"a-lib"}, "gitlink-nested": {"a/lib"},
 	"gitlink-last": {"zlib"}, "gitlink-none": nil, "gitlink-two": {"a-lib", "lib"}}
 
@@ -59,7 +59,7 @@ func shapeTree(ref string) tree {
 	for _, g := range shapeGitlinks[ref] {
 		mods += fmt.Sprintf("[submodule \"%s\"]\n\tpath = %s\n\turl = ../%s.git\n", g, g, filepath.Base(g))
 	}
-	t := tree{"a.bin": cA1, "a/in.bin": cA2, "a0.bin": cB1, "d1/d2/d3/d4/deep.bin": cB2, "run.bin": cC1, "sp ace/my file.bin": cD1, "z.bin": cS, "plain.txt": cPlain}
+	t := tree{"a.bin": cA1, "a/in.bin": cA2, "a0.bin": cB1, "d1/d2/d3/d4/deep.bin": cB2, "run.bin": cC1, "sp ace/my\tfile.bin": cD1, "z.bin": cS, "plain.txt": cPlain}
 	if mods != "" {
 		t[".gitmodules"] = []byte(mods)
 	}
@@ -140,7 +140,7 @@ func (cs *caseSpec) dimTag(p string) string {
 	s := ""
 	if cs.world == shapesW {
 		class := map[string]string{"a.bin": "top-level", "a/in.bin": "in-directory", "a0.bin": "after-directory-of-same-prefix", "d1/d2/d3/d4/deep.bin": "four-directories-deep",
-			"run.bin": "executable", "sp ace/my file.bin": "name-with-spaces", "z.bin": "top-level"}[p]
+			"run.bin": "executable", "sp ace/my\tfile.bin": "name-with-spaces-and-tab", "z.bin": "top-level"}[p]
 		for _, g := range shapeGitlinks[cs.treeRef()] {
 			if g < p {
 				class = "after-gitlink"
@@ -180,13 +180,18 @@ func addShapeSlices(add func(name string, gen func(in chooser) *caseSpec), defs 
 	gInc := filterSpec{name: "cfgI=a/,sp ace/", cfgI: sp("a/,sp ace/")}
 	fExc := filterSpec{name: "X=a/", cliX: sp("a/")}
 	gExc := filterSpec{name: "cfgX=a/", cfgX: sp("a/")}
-	cli := []filterSpec{fNone, fInc}
-	cfg := []filterSpec{fNone, gInc}
+	// the documented list form has a blank after the comma ("a, b"; it is also what `git lfs env` prints)
+	fIncB := filterSpec{name: "I=a/, sp ace/", cliI: sp("a/, sp ace/")}
+	gIncB := filterSpec{name: "cfgI=a/, sp ace/", cfgI: sp("a/, sp ace/")}
+	fExcB := filterSpec{name: "X=a/, z.bin", cliX: sp("a/, z.bin")}
+	gExcB := filterSpec{name: "cfgX=a/, z.bin", cfgX: sp("a/, z.bin")}
+	cli := []filterSpec{fNone, fInc, fIncB, fExcB}
+	cfg := []filterSpec{fNone, gInc, gIncB, gExcB}
 	if thorough {
-		cli = []filterSpec{fNone, fInc, fExc}
-		cfg = []filterSpec{fNone, gInc, gExc}
+		cli = []filterSpec{fNone, fInc, fIncB, fExc, fExcB}
+		cfg = []filterSpec{fNone, gInc, gIncB, gExc, gExcB}
 	}
-	lSp := lcoVar{name: "sp ace/my file.bin", args: []string{"sp ace/my file.bin"}, patterns: []string{"sp ace/my file.bin"}}
+	lSp := lcoVar{name: "sp ace/my\tfile.bin", args: []string{"sp ace/my\tfile.bin"}, patterns: []string{"sp ace/my\tfile.bin"}}
 	lDeep := lcoVar{name: "cwd=d1/d2:d3", cwd: "d1/d2", args: []string{"d3"}, patterns: []string{"d1/d2/d3"}}
 	lcos := []lcoVar{lAll, lSp}
 	if thorough {
